@@ -2,7 +2,7 @@
    histories of public API calls) on the implementation and writes, per case, the program and what
    the implementation answered to each query; `mismatches` evaluates the model on the same program
    and returns the (case, query) positions where the answers differ. *)
-From Exmex.Model Require Import Base EvalBinary Lexer Flat Deep Convert.
+From Exmex.Model Require Import Base EvalBinary Lexer Flat Deep Convert Calc Partial.
 Open Scope nat_scope.
 
 Inductive prog :=
@@ -16,7 +16,10 @@ Inductive prog :=
 | PUn (name : str) (p : prog)            (* Calculate::operate_unary *)
 | PSubs (p : prog) (m : list (str * prog))    (* Calculate::subs *)
 | PReFlat (p : prog)                     (* FlatEx::parse(p.unparse()) *)
-| PReDeep (p : prog).                    (* DeepEx::parse(p.unparse()) *)
+| PReDeep (p : prog)                     (* DeepEx::parse(p.unparse()) *)
+| PArith (op : nat) (p q : prog)         (* DeepEx + - * / pow (0..4) on the deep forms *)
+| PNeg (p : prog)                        (* -DeepEx *)
+| PPartial (idxs : list nat) (mode : nat) (p : prog).   (* Differentiate::partial_iter_relaxed; mode 0 = Error, 1 = PerOperand, 2 = None *)
 
 Inductive query :=
 | QVars                                   (* var_names() *)
@@ -36,6 +39,7 @@ Section Driver.
 Variable tb : optable.
 Let C := term_carrier.
 Let islit := is_numeric_text.
+Let DCt := term_dcarrier.
 
 Definition as_deep (e : expr) : res (deepex term) :=
   match e with ED d => Ok d | EF f => to_deepex C tb true f end.
@@ -84,6 +88,17 @@ Fixpoint run (p : prog) : res expr :=
       do da <- as_deep a;
       let sub := fun x => match find (fun xd => str_eqb (fst xd) x) m' with Some xd => snd xd | None => None end in
       do r <- subs C sub da; like a r
+  | PArith op p q =>
+      do a <- run p; do b <- run q; do da <- as_deep a; do db <- as_deep b;
+      do r <- match op with
+              | 0 => d_add C DCt tb da db | 1 => d_sub C tb da db | 2 => d_mul C DCt tb da db
+              | 3 => d_div C DCt tb da db | _ => d_pow C DCt tb da db end;
+      Ok (ED r)
+  | PNeg p => do a <- run p; do da <- as_deep a; do r <- d_neg C tb da; Ok (ED r)
+  | PPartial idxs mode p =>
+      do a <- run p; do da <- as_deep a;
+      do r <- partial_iter_deep C DCt tb da idxs (match mode with 0 => MError | 1 => MPerOperand | _ => MNone end);
+      like a r
   | PReFlat p => do e <- run p; do t <- text_of e; do f <- parse C tb true islit t; Ok (EF f)
   | PReDeep p => do e <- run p; do t <- text_of e; do d <- parse_deep C tb islit t; Ok (ED d)
   end.
